@@ -651,7 +651,9 @@ def extract_module(src: str, cur: list[str], is_pkg: bool) -> list:
                 try:
                     target = importlib.util.resolve_name(name, ".".join(package)).split(".") if s.level else name.split(".")
                 except ImportError:
-                    target = ["<beyond-top-level>"]
+                    # relative import that climbs above the top-level package: CPython raises ImportError; in the
+                    # model it is an import of a module below the own top-level name that does not exist
+                    target = [cur[0], "<beyond-top-level>"]
                 if any(a.name == "*" for a in s.names):
                     out.append(("star", target))
                 else:
@@ -836,7 +838,10 @@ def c_case(res: dict) -> str:
     obs = []
     for m in mods:
         o = res["imports"][".".join(m["path"])]
-        obs.append(0 if o == "ok" else ERR_CODE.get(o["cls"], 9))
+        if o != "ok" and o["cls"] == "ImportError" and "beyond top-level package" in o["msg"]:
+            obs.append(2)       # see extract_module: modelled as a missing internal module
+        else:
+            obs.append(0 if o == "ok" else ERR_CODE.get(o["cls"], 9))
     return (f"(({clist(c_mod(m['path'], m['body']) for m in mods)}, {clist(cpath(p) for p in paths)}), "
             f"{clist(cN(x) for x in obs)})")
 
